@@ -164,7 +164,10 @@ func runC19(c *eng.Ctx) {
 		}
 		// the limit test must come before the entry is delivered: callback only on the limit-not-exhausted edge
 		var cbs []ssa.Instruction
-		for _, in := range eng.Find(fn, func(in ssa.Instruction) bool { cl, ok := in.(*ssa.Call); return ok && eng.IsParam(cl.Call.Value, "eachEntryFunc") }) {
+		for _, in := range eng.Find(fn, func(in ssa.Instruction) bool {
+			cl, ok := in.(*ssa.Call)
+			return ok && eng.IsParam(cl.Call.Value, "eachEntryFunc")
+		}) {
 			cbs = append(cbs, in)
 		}
 		limitOK := func(cond ssa.Value) (bool, bool) {
@@ -349,7 +352,10 @@ func runC19(c *eng.Ctx) {
 	// limit inside a store batch the returned cursor is the last delivered name
 	if fn := c.NeedFunc("weed/filer", "(*FilerStoreWrapper).prefixFilterEntries"); fn != nil {
 		var cbs []ssa.Instruction
-		for _, in := range eng.Find(fn, func(in ssa.Instruction) bool { cl, ok := in.(*ssa.Call); return ok && eng.IsParam(cl.Call.Value, "eachEntryFunc") }) {
+		for _, in := range eng.Find(fn, func(in ssa.Instruction) bool {
+			cl, ok := in.(*ssa.Call)
+			return ok && eng.IsParam(cl.Call.Value, "eachEntryFunc")
+		}) {
 			if len(eng.CycleOf(in.Block())) > 0 {
 				cbs = append(cbs, in)
 			}
